@@ -262,17 +262,14 @@ func (n *Node) acceptLoop(ln net.Listener) {
 		stopped := n.stopped
 		n.mu.Unlock()
 		if !stopped {
-			n.fixDrainer()
-			n.S.Close()
-			n.mu.Lock()
-			n.Closes++
-			n.mu.Unlock()
 			// The product's replica process exits at this point, and whatever was
 			// waiting in its listen queue goes with it. Here the listener lives on: a
 			// connection that was queued behind this one (the loser of two simultaneous
 			// attach attempts, long since given up by its dialler) must not be served
 			// later as if it were new - it would end at once and close a replica that
-			// has been opened again in the meantime.
+			// has been opened again in the meantime. The queue is emptied while the
+			// replica is still open: nobody can be attaching to it legitimately now (an
+			// attach needs a closed replica), so whatever is queued is stale.
 			if tl, ok := ln.(*net.TCPListener); ok {
 				for {
 					tl.SetDeadline(time.Now().Add(2 * time.Millisecond))
@@ -284,6 +281,11 @@ func (n *Node) acceptLoop(ln net.Listener) {
 				}
 				tl.SetDeadline(time.Time{})
 			}
+			n.fixDrainer()
+			n.S.Close()
+			n.mu.Lock()
+			n.Closes++
+			n.mu.Unlock()
 		}
 		close(end)
 	}
